@@ -52,6 +52,9 @@ FIELD_RANGES = {}
 RET_RANGES = {}
 # function path -> MIR projection list p such that the function returns `(*arg0).p` (a plain field getter)
 GETTERS = {}
+# function path -> (success variant, [(payload path, op, other)]) : facts about the Ok/Some payload that hold at every return
+# of the function; other = ('Lp', param, path) (a length behind a pointer parameter) | ('ret', payload path) | ('rng', lo, hi)
+RET_FACTS = {}
 # promoted constant path -> (start, end, inclusive, type) for `&(a..b)` / `&(a..=b)` with literal bounds
 PROMOTED_RANGES = {}
 # function path -> entry facts established at every call site (argsum.py); swapped in per Facts object by the census
@@ -598,6 +601,16 @@ class Intervals:
                     return (t[0], t[1], False)
                 base = (t[0], list(t[1]))
                 rest = projs[1:]
+        if base is None and rest and depth < 12 and self.tr[l] is None and not self._is_ref_local(l) and not (0 < l <= self.body.argc):
+            # a local that is a one-time copy / move of an aggregate place (`val = move ((_b as Continue).0)`): its fields
+            # are the fields of that place, as long as neither side is ever written again or mutably borrowed
+            sd = self.body.single_def(l)
+            if sd is not None and not isinstance(sd[2], Term) and sd[2][0] == "use":
+                q = op_place(sd[2][1])
+                if q is not None and (q[1] or q[0] != l):
+                    mb = self._mut_borrowed_locals()
+                    if self._stable_local(l) and self._stable_local(q[0]) and l not in mb and q[0] not in mb:
+                        return self.resolve_place([q[0], list(q[1]) + list(rest)], depth + 1)
         if base is None:
             base = (l, [])
         path = base[1]
@@ -1042,6 +1055,24 @@ class Intervals:
                             if pr[0] <= cur[1] and pr[1] >= cur[0]:
                                 st.iv[(l, 0)] = clamp_to(pr, cur)
                         st.iv[(l, 1)] = (0, 0)
+                    if base == "Add" and st.avail and ta is not None and tb is not None:
+                        # a + c where a <= x and `x + c` is an available (checked, passed) sum: a + c <= x + c
+                        for (kb, kx, ky), kv in st.avail.items():
+                            if kb != "Add":
+                                continue
+                            for (p_, q_) in ((ta, tb), (tb, ta)):
+                                for (x_, y_) in ((kx, ky), (ky, kx)):
+                                    if q_ == y_ and p_ != x_:
+                                        strict = self.has_rel(st, p_, "<", x_)
+                                        if strict or self.has_rel(st, p_, "<=", x_):
+                                            vr = self._avail_range(st, kv)
+                                            if vr is not None:
+                                                cur = st.iv[(l, 0)]
+                                                hi = vr[1] - (1 if strict else 0)
+                                                if hi < cur[1] and cur[0] <= hi:
+                                                    st.iv[(l, 0)] = (cur[0], hi)
+                                                if vr[1] <= otr[1] and a is not None and b is not None and a[0] >= 0 and b[0] >= 0:
+                                                    st.iv[(l, 1)] = (0, 0)
                     if base == "Add":
                         # (x - y) + c with c <= y is at most x: the sum cannot overflow and is bounded by x's range
                         # (only the upper end is bounded this way: both operands must be non-negative)
@@ -1644,6 +1675,17 @@ class Intervals:
             rr = RET_RANGES.get(c)
             if rr is not None:
                 new = rr if new is None else ((max(new[0], rr[0]), min(new[1], rr[1])) if rr[0] <= new[1] and rr[1] >= new[0] else new)
+            if c == "core::option::Option::<T>::unwrap_or" and len(args_ops) == 2 and op_local(args_ops[0]) is not None:
+                # the payload of the option, or the default: bounded by whatever bounds both
+                pt = ("P", op_local(args_ops[0]), (("d", 1), ("f", 0)))
+                pr = st.iv.get(pt) or self.term_tr.get(pt)
+                dr = args[1]
+                if pr is not None and dr is not None:
+                    new = hull(pr, dr)
+                dterm = arg_terms[1]
+                for (a, o, b2) in list(st.rel):
+                    if a == pt and dterm is not None and (b2 == dterm or self.has_rel(st, dterm, "<=", b2)):
+                        rels.append(("D", "<=", b2))
             gp = GETTERS.get(c)
             if gp is not None and len(args_ops) == 1 and op_local(args_ops[0]) is not None:
                 # `fn len(&self) -> usize { self.top }`: the result is the current value of that field
@@ -1690,7 +1732,11 @@ class Intervals:
                     rl.append(("<=", arg_terms[0]))
                 payloads.append(((("d", 1), ("f", 0)), iv, itr, rl))
             elif m and short in ("position", "rposition") and "slice::iter::Iter" in (d.get("cargs") or "") + c:
-                payloads.append(((("d", 1), ("f", 0)), (0, ISIZE_MAX - 1), ty_range(m.group(1)), []))
+                rl = []
+                lt = self._iter_source_len(args_ops[0]) if args_ops else None
+                if lt is not None:
+                    rl.append(("<", lt))
+                payloads.append(((("d", 1), ("f", 0)), (0, ISIZE_MAX - 1), ty_range(m.group(1)), rl))
             m2 = re.match(r"core::result::Result<((?:u|i)(?:8|16|32|64|128|size)), ", dty)
             if m2 and short in ("try_from", "try_into") and len(args) == 1 and args[0] is not None:
                 itr = ty_range(m2.group(1))
@@ -1708,19 +1754,23 @@ class Intervals:
         st.kill(l)
         if in_range is not None:
             st.cmp[l] = in_range
+        if short in ("index", "index_mut") and tr is None:
+            self._subslice_len_facts(st, t, l)
         if carry is not None:
-            ts, dv = carry
-            td = ("P", l, (("d", dv), ("f", 0)))
-            self.term_tr[td] = self.term_tr[ts]
-            if ts in st.iv:
-                st.iv[td] = st.iv[ts]
+            pairs, dv = carry
+            mp = {ts: ("P", l, (("d", dv), ("f", 0)) + rest) for ts, rest in pairs}
+            for ts, td in mp.items():
+                self.term_tr[td] = self.term_tr[ts]
+                if ts in st.iv:
+                    st.iv[td] = st.iv[ts]
             for (a, o, b2) in list(st.rel):
-                if a == ts:
-                    st.rel.add((td, o, b2))
-                if b2 == ts:
-                    st.rel.add((a, o, td))
-            st.rel.add((td, "<=", ts))
-            st.rel.add((ts, "<=", td))
+                if a in mp or b2 in mp:
+                    st.rel.add((mp.get(a, a), o, mp.get(b2, b2)))
+                    if a in mp and b2 not in mp:
+                        pass
+            for ts, td in mp.items():
+                st.rel.add((td, "<=", ts))
+                st.rel.add((ts, "<=", td))
         if new_vf is not None:
             st.vf[l] = new_vf
         if new is not None and tr is not None:
@@ -1743,6 +1793,90 @@ class Intervals:
             for o, other in rl:
                 if other is not None:
                     self.add_rel(st, t, o, other)
+        rf = RET_FACTS.get(c)
+        if rf is not None and tr is None:
+            # facts the callee establishes about its Ok / Some payload at every return (retsum.ret_facts)
+            for path, o, other in rf[1]:
+                t = ("P", l, path)
+                self.term_tr.setdefault(t, (0, (1 << 64) - 1))
+                if other[0] == "rng":
+                    self.term_tr[t] = (other[1], other[2]) if fits((other[1], other[2]), self.term_tr[t]) else self.term_tr[t]
+                    self._narrow_term(st, t, (other[1], other[2]))
+                elif other[0] == "ret":
+                    t2 = ("P", l, other[1])
+                    self.term_tr.setdefault(t2, (0, (1 << 64) - 1))
+                    self.add_rel(st, t, o, t2)
+                elif other[0] == "Lp":
+                    pi = other[1]
+                    if pi - 1 < len(args_ops):
+                        al = op_local(args_ops[pi - 1])
+                        if al is not None:
+                            tgt = self._ptr_target(al)
+                            if tgt is not None and tgt[2]:
+                                lt = ("L", tgt[0], tuple(tgt[1]) + tuple(other[2][1:]))
+                            else:
+                                lt = ("L", al, tuple(other[2]))
+                            self.add_rel(st, t, o, lt)
+
+    def _iter_source_len(self, it_ref_op):
+        """length term of the slice a `slice::Iter` was created from: `s.iter()` assigned once to the iterator local"""
+        rl = op_local(it_ref_op)
+        if rl is None:
+            return None
+        tgt = self._ptr_target(rl)
+        if tgt is None or tgt[1] or not tgt[2]:
+            return None
+        sd = self.body.single_def(tgt[0])
+        if sd is None or not isinstance(sd[2], Term):
+            return None
+        t = sd[2]
+        if t.callee in ("core::slice::<impl [T]>::iter", "core::slice::<impl [T]>::iter_mut") and t.args:
+            return self.len_term(t.args[0])
+        return None
+
+    INDEX_RE = re.compile(r"^(core::slice::index::<impl core::ops::index::Index(Mut)?<I> for \[T\]>::index(_mut)?|"
+                          r"core::array::<impl core::ops::index::Index(Mut)?<I> for \[T; N\]>::index(_mut)?)$")
+
+    def _subslice_len_facts(self, st, t, l):
+        """`&s[..n]`, `&s[a..b]`, `&s[a..]`: what is known about the length of the resulting slice"""
+        if not self.INDEX_RE.match(t.callee) or len(t.args) != 2:
+            return
+        rl = op_local(t.args[1])
+        if rl is None:
+            return
+        sd = self.body.single_def(rl)
+        if sd is None or isinstance(sd[2], Term):
+            return
+        rv = sd[2]
+        if rv[0] == "use" and op_local(rv[1]) is not None:
+            sd = self.body.single_def(op_local(rv[1]))
+            if sd is None or isinstance(sd[2], Term):
+                return
+            rv = sd[2]
+        if rv[0] != "agg" or rv[1][0] != "adt" or not rv[1][1].startswith("core::ops::range::Range"):
+            return
+        kind = rv[1][1].split("::")[-1]
+        lt = ("L", l, ("*",))
+        src_lt = self.len_term(t.args[0])
+        if kind == "RangeTo" and len(rv[2]) == 1:
+            e = rv[2][0]
+            er = self.rng(st, e)
+            if er is not None:
+                st.iv[lt] = (max(er[0], 0), min(er[1], ISIZE_MAX))
+            et = self.term_of(st, e)
+            if et is not None:
+                st.rel.add((lt, "<=", et))
+                st.rel.add((et, "<=", lt))
+        elif kind == "Range" and len(rv[2]) == 2:
+            e = rv[2][1]
+            er = self.rng(st, e)
+            if er is not None:
+                st.iv[lt] = (0, min(er[1], ISIZE_MAX))
+            et = self.term_of(st, e)
+            if et is not None:
+                st.rel.add((lt, "<=", et))
+        if src_lt is not None and src_lt != lt:
+            st.rel.add((lt, "<=", src_lt))
 
     CONTAINS_RE = re.compile(r"^core::ops::range::(Range|RangeInclusive)::<Idx>::contains$")
 
@@ -1876,10 +2010,14 @@ class Intervals:
             return None
         if not (c.endswith("as core::ops::try_trait::Try>::branch") or short in ("ok_or", "ok_or_else", "map_err", "ok")):
             return None
-        ts = ("P", src, (("d", sv), ("f", 0)))
-        if ts not in self.term_tr:
+        pre = (("d", sv), ("f", 0))
+        pairs = []
+        for t in list(self.term_tr):
+            if isinstance(t, tuple) and t[0] == "P" and t[1] == src and tuple(t[2][:2]) == pre:
+                pairs.append((t, tuple(t[2][2:])))
+        if not pairs:
             return None
-        return ts, dv
+        return pairs, dv
 
     def _apply_variant_facts(self, st, v):
         for (a, o, b) in v[1]:
